@@ -3,7 +3,7 @@
 import os, sys, json
 from concurrent.futures import ProcessPoolExecutor
 sys.path.insert(0, os.path.dirname(os.path.dirname(os.path.abspath(__file__))))
-PROPS = ["C%02d" % i for i in range(1, 19)]
+PROPS = [p for p in ["C%02d" % i for i in range(1, 19)] if not os.environ.get("XS_PROPS") or p in os.environ["XS_PROPS"].split(",")]
 
 def base_of(prop):
     from xstatic import core
